@@ -185,6 +185,12 @@ pub fn structured_text(r: &mut Rng, maxparas: usize, maxwords: usize, ansi: usiz
 
 /// mixture of structured and raw texts
 pub fn any_text(r: &mut Rng, crlf: bool) -> String {
+    if r.chance(1, 500) {
+        // a long paragraph: a hundred words or so, several hundred bytes
+        let ansi = r.below(2);
+        let n = r.range(40, 130);
+        return paragraph(r, n, ansi);
+    }
     match r.below(10) {
         0..=4 => {
             let ansi = [0, 0, 1, 2][r.below(4)];
